@@ -645,6 +645,7 @@ impl Emit for ModuleFunctions {
         cx.indices.locals.reserve(bytes.len());
 
         let mut offset_data = Vec::new();
+        let num_functions = bytes.len();
         for (wasm, byte_len, id, used_locals, local_indices, map) in bytes {
             let leb_len = wasm.len() - byte_len;
             wasm_code_section.raw(&wasm[leb_len..]);
@@ -676,8 +677,12 @@ impl Emit for ModuleFunctions {
             ));
         }
         cx.code_transform.function_ranges.sort_by_key(|i| i.0);
-        // FIXME: code section start in DWARF debug information expects 2 bytes before actual code section start.
-        cx.code_transform.code_section_start = code_section_start_offset - 2;
+        // Code addresses in DWARF are relative to the start of the code section's
+        // contents, i.e. to the LEB128-encoded function count that precedes the
+        // first function body.
+        let mut count_leb = Vec::new();
+        wasm_encoder::Encode::encode(&(num_functions as u32), &mut count_leb);
+        cx.code_transform.code_section_start = code_section_start_offset - count_leb.len();
         cx.code_transform.instruction_map = instruction_map.into_iter().collect();
     }
 }
